@@ -856,6 +856,26 @@ func init() {
 			}
 			return m.Load(st, p)
 		},
+		"guardSlice": func(m *Machine, st *State, fr *Frame, instr ssa.Instruction, fn *ssa.Function, args []Value) Value {
+			p := args[0].(*Ptr)
+			if v, ok := st.guardVals[fmt.Sprintf("%d/%s/snap", p.Ref.id, p.Path)]; ok && st.opaque == 0 {
+				return v
+			}
+			sl := m.Load(st, p).(*Slice)
+			ss := &SliceSnap{Len: sl.Len, Off: sl.Off, Elem: sl.Elem}
+			for _, l := range m.ts.Leaves(sl.Elem) {
+				if st.opaque != 0 {
+					ss.Arrs = append(ss.Arrs, m.ctx.Fresh("calleeGuardSlice", ArrSort(m.ts.Idx(), l.sort)))
+				} else {
+					ss.Arrs = append(ss.Arrs, m.elemArr(st, sl.Elem, sl.Arr, l))
+				}
+			}
+			if st.opaque != 0 {
+				ss.Len = m.ctx.Fresh("calleeGuardSliceLen", m.ts.Idx())
+				ss.Off = m.ts.IdxConst(0)
+			}
+			return ss
+		},
 		"closed": func(m *Machine, st *State, fr *Frame, instr ssa.Instruction, fn *ssa.Function, args []Value) Value {
 			return m.chanClosed(st, args[0].(*Term))
 		},
